@@ -26,6 +26,7 @@ func main() {
 	_ = aux
 	_ = n
 	enablePoison(mode)
+	startWatchdog(mode, *prop, *out)
 	switch mode {
 	case "parsecases":
 		runParseCases(*prop, *in, *out)
